@@ -66,6 +66,17 @@ impl<'tcx> Cx<'tcx> {
         format!("{}{}", self.tcx.crate_name(did.krate), self.tcx.def_path(did).to_string_no_crate_verbose())
     }
 
+    /// ADT name: for the fclones crates the crate-relative definition path (identical in
+    /// every compilation unit, unlike the visible re-export path), else the printed path
+    fn adt_name(&self, did: DefId) -> String {
+        if self.tcx.crate_name(did.krate).as_str() == "fclones" {
+            let p = self.tcx.def_path(did).to_string_no_crate_verbose();
+            p.trim_start_matches("::").to_string()
+        } else {
+            self.path(did)
+        }
+    }
+
     fn ty_str(&self, t: Ty<'tcx>) -> String {
         format!("{}", t)
     }
@@ -121,7 +132,7 @@ impl<'tcx> Cx<'tcx> {
                 ProjectionElem::Field(f, _) => {
                     let name = self.field_name(pty, f.as_usize());
                     let owner = match pty.ty.kind() {
-                        ty::Adt(adt, _) => self.path(adt.did()),
+                        ty::Adt(adt, _) => self.adt_name(adt.did()),
                         ty::Closure(..) => "{closure}".to_string(),
                         ty::Tuple(..) => "()".to_string(),
                         _ => String::new(),
@@ -277,7 +288,7 @@ impl<'tcx> Cx<'tcx> {
                         };
                         format!(
                             "{{\"k\":\"agg\",\"ak\":\"adt\",\"adt\":{},\"variant\":{},\"fields\":[{}],\"ops\":[{}]}}",
-                            esc(&self.path(*did)),
+                            esc(&self.adt_name(*did)),
                             esc(&var.name.to_string()),
                             names.join(","),
                             opss
@@ -695,7 +706,7 @@ impl<'tcx> Cx<'tcx> {
             }
             let adt = tcx.adt_def(ldid.to_def_id());
             let mut s = String::new();
-            let _ = write!(s, "{{\"path\":{},\"enum\":{}", esc(&self.path(ldid.to_def_id())), adt.is_enum());
+            let _ = write!(s, "{{\"path\":{},\"enum\":{}", esc(&self.adt_name(ldid.to_def_id())), adt.is_enum());
             let d = tcx.adt_destructor(adt.did()).map(|d| self.path(d.did));
             let _ = write!(s, ",\"drop\":{}", opt_str(d));
             s.push_str(",\"variants\":[");
